@@ -81,6 +81,7 @@ def normalise(toks, drop=("::",)):
     first = None
     nwords = 0
     fmt = False
+    first_digit = False
     while k < n:
         kind, s = toks[k]
         if kind == "n":
@@ -91,7 +92,8 @@ def normalise(toks, drop=("::",)):
             nwords += 1
             if first is None:
                 first = s.lower() if api.is_concrete(s) else ""
-            if nwords <= 2 and api.is_concrete(s) and s.lower() == "format" and (nwords == 1 or first.isdigit()):
+                first_digit = api.char_in(s[:1], "0123456789")     # a label (also when symbolic)
+            if nwords <= 2 and api.is_concrete(s) and s.lower() == "format" and (nwords == 1 or first_digit):
                 fmt = True       # [label] FORMAT ( ... )
         if fmt and kind == "p" and s == ",":
             k += 1               # commas in FORMAT lists are a documented canonicalisation
